@@ -108,6 +108,7 @@ fn body_bytes(class: &str, v: usize) -> Vec<u8> {
         "invalid_utf8" => pick(&[&[0xff, 0x41, 0xfe][..], &[0xc3, 0x28], &[0x80]], v).to_vec(), // (no byte-order mark: a conforming decoder lets a BOM override the label)
         "json_ok" => pick(&[&br#"{"k":"v","n":1}"#[..], br#"{"k":"","n":0}"#, "{\"n\":4294967295,\"k\":\"\u{e9}\"}".as_bytes()], v).to_vec(),
         "json_bad" => pick(&[&br#"{"k":"v","n":"#[..], b"not json", br#"{"k":1,"n":"x"}"#], v).to_vec(),
+        "json_trailing" => pick(&[&br#"{"k":"v","n":1}{"k":"w","n":2}"#[..], b"{\"k\":\"v\",\"n\":1}\n}", br#"{"k":"","n":0} <html>"#], v).to_vec(),
         other => panic!("body class {other}"),
     }
 }
